@@ -27,14 +27,17 @@ LinkCat == [
   l_ext  |-> [lp |-> D("extlink"), tp |-> Ext],                           \* dir link to outside the code base
   l_cur  |-> [lp |-> Root \o <<"deep", "cur">>, tp |-> D("src")],         \* dir link whose parent differs from its target's
   l_sys  |-> [lp |-> D("sysalias"), tp |-> Root \o <<"sys", "include">>],
-  l_nest |-> [lp |-> D("nest"), tp |-> D("lnk_inc")]                      \* link to a link (needs l_inc)
+  l_nest |-> [lp |-> D("nest"), tp |-> D("lnk_inc")],                     \* link to a link (needs l_inc)
+  \* a link INSIDE inc to a subdirectory of src: "inc/tosub/.." is physically src but lexically inc, so
+  \* inc/tosub/../m1.c names src/m1.c although a different file inc/m1.c may exist
+  l_sub  |-> [lp |-> Root \o <<"inc", "tosub">>, tp |-> Root \o <<"src", "sub">>]
 ]
 LinkNames == DOMAIN LinkCat
 
 Targets == [m1 |-> Root \o <<"src", "m1.c">>, m2 |-> Root \o <<"src", "m2.c">>, inc |-> D("inc"),
             sys |-> Root \o <<"sys", "include">>, bld |-> D("build"), ext |-> Ext, src |-> D("src"), root |-> Root]
 RealSubdirs == [p \in {Root, D("src"), D("inc"), D("sys")} |->
-                  CASE p = Root -> {"src", "inc", "sys", "build", "deep"} [] p = D("sys") -> {"include"} [] OTHER -> {}]
+                  CASE p = Root -> {"src", "inc", "sys", "build", "deep"} [] p = D("sys") -> {"include"} [] p = D("src") -> {"sub"} [] OTHER -> {}]
 
 VARIABLES chosen, done
 vars == <<chosen, done>>
@@ -52,7 +55,8 @@ PrefixRewrite(S) ==
 \* detour through a directory link and back up: valid for the PHYSICAL parent of the link's target
 DotDotViaLink(P) ==
   UNION {{LinkCat[l].lp \o <<"..">> \o Drop(P, Len(Parent(LinkCat[l].tp)))} : l \in {k \in chosen :
-              LinkCat[k].tp \in {Targets[t] : t \in {"inc", "sys", "src", "ext"}} /\ Prefix(Parent(LinkCat[k].tp), P)}}
+              LinkCat[k].tp \in ({Targets[t] : t \in {"inc", "sys", "src", "ext"}} \cup {Root \o <<"src", "sub">>})
+              /\ Prefix(Parent(LinkCat[k].tp), P)}}
 Dots(S) == S \cup {SubSeq(s, 1, Len(Root)) \o <<".">> \o Drop(s, Len(Root)) : s \in {x \in S : Prefix(Root, x)}}
 UpDown(S) == S \cup UNION {{SubSeq(s, 1, Len(Root)) \o <<d, "..">> \o Drop(s, Len(Root)) : d \in RealSubdirs[Root]} :
                                s \in {x \in S : Prefix(Root, x)}}
